@@ -171,7 +171,7 @@ func c41Compare(s *orcStep, res *run.Result, after *orcState, outcome string) {
 		a, bb := pre.snap(x).Pi, after.snap(j).Pi
 		if a != bb {
 			reported = true
-			orcViol(res, "C41.other-board-changed", orcSig(s, "C41", "other-board-changed", rel+":"+s.Call.Kind+":"+outcome),
+			orcViol(res, "C41.other-board-changed", orcSig(s, "C41", "other-board-changed", c41ChangeClass(pre.snap(x), after.snap(j))+":"+rel+":"+s.Call.Kind+":"+outcome),
 				fmt.Sprintf("edit addressed to board %q (%s) changed board %s (%s):\n%s\n%s", s.Call.Board, outcome, pre.Boards[x].Key, rel, proj.Diff(a, bb), c41Describe(s, after)))
 		}
 	}
@@ -183,4 +183,36 @@ func c41Describe(s *orcStep, after *orcState) string {
 		d += "--- source the caller holds after the refusal ---\n" + after.Text
 	}
 	return d
+}
+
+// c41ChangeClass says what happened to a board that should not have changed (elements
+// matched by label tag): elements-removed > elements-added > ids-changed > attributes-changed.
+func c41ChangeClass(a, b *orcSnap) string {
+	for t := range a.objByTag {
+		if _, ok := b.objByTag[t]; !ok {
+			return "elements-removed"
+		}
+	}
+	for t := range a.edgeByTag {
+		if _, ok := b.edgeByTag[t]; !ok {
+			return "elements-removed"
+		}
+	}
+	if len(b.Objs) > len(a.Objs) || len(b.Edges) > len(a.Edges) {
+		return "elements-added"
+	}
+	if len(b.Objs) < len(a.Objs) || len(b.Edges) < len(a.Edges) {
+		return "elements-removed"
+	}
+	for t, i := range a.objByTag {
+		if a.Objs[i].AbsID != b.Objs[b.objByTag[t]].AbsID {
+			return "ids-changed"
+		}
+	}
+	for t, i := range a.edgeByTag {
+		if a.Edges[i].AbsID != b.Edges[b.edgeByTag[t]].AbsID {
+			return "ids-changed"
+		}
+	}
+	return "attributes-changed"
 }
